@@ -51,6 +51,42 @@ class Group:
     def header(self):
         return M.header(self.cfg, self.base)
 
+    def data(self):
+        return GroupData(self.name, self.cfg, self.header(), self.events, self.meta)
+
+
+class GroupData:
+    """what judge_groups needs of a group (picklable: produced by worker processes)"""
+
+    def __init__(self, name, cfg, hdr, events, meta):
+        self.name = name
+        self.cfg = cfg
+        self.hdr = hdr
+        self.events = events
+        self.meta = meta
+
+    def header(self):
+        return self.hdr
+
+
+def _worker(args):
+    fn, arg = args
+    from . import core
+    core.capture_impl_stdout()
+    Group._current = None
+    return [g.data() if isinstance(g, Group) else g for g in fn(arg)]
+
+
+def parallel(fn, args, procs=16):
+    """run fn(arg) -> [Group] for every arg in worker processes (fork), return all GroupData"""
+    import multiprocessing
+    if len(args) == 1 or procs == 1:
+        return [d for a in args for d in _worker((fn, a))]
+    ctx = multiprocessing.get_context('fork')
+    with ctx.Pool(min(procs, len(args))) as pool:
+        res = pool.map(_worker, [(fn, a) for a in args], chunksize=1)
+    return [d for r in res for d in r]
+
 
 def randomize(st, rnd, mode=None, thumb=None, it=0, pc=None, cfg=None, e=0):
     """random register file / flags in a chosen mode and instruction set"""
@@ -104,7 +140,7 @@ def judge_groups(ctx, groups, clause_filter, site_of=None, tags_of=None, trace_m
         if canary and evs:
             # binding canaries: corrupt the recorded delta of a few real events of this group
             for e in rnd.sample(evs, min(3, len(evs))):
-                c = corrupt(e, rnd, len(evs) + len(cans) + 1)
+                c = corrupt(e, rnd, len(evs) + len(cans) + 1, g.header()['h']['base'])
                 if c is not None:
                     cans.append(c)
         canaries.append(cans)
@@ -128,18 +164,38 @@ def judge_groups(ctx, groups, clause_filter, site_of=None, tags_of=None, trace_m
                           what='path=%s out=%s' % (v['path'], e['out']))
         for c, kind in cans:
             v = byid[c['id']]
-            if v['path'].startswith('exact') or v['path'].startswith('exc') or kind == 'range':
+            if kind == 'priv':
+                ctx.canary('confine' in v['v'] or 'range' in v['v'] or 'hosterror' in v['v'])
+            elif v['path'].startswith('exact') or v['path'].startswith('exc') or kind == 'range':
                 ctx.canary(bool(v['v']))
         ctx.events += len(g.events)
     return out
 
 
-def corrupt(e, rnd, new_id):
-    """a deliberately wrong copy of a real event: one flipped bit in a changed (or unchanged) register / flag"""
+def corrupt(e, rnd, new_id, base):
+    """a deliberately wrong copy of a real event: one flipped bit in a changed (or unchanged) register / flag,
+    an out-of-range register value, or (User-mode events that stay in User mode) a changed privileged register"""
     c = json.loads(json.dumps(e))
     c['id'] = new_id
     d = c['d']
-    kind = rnd.choice(['reg', 'flag', 'range'])
+    pre_cpsr = c['pre'].get('cpsr') or base['cpsr']
+    post_cpsr = d.get('cpsr') or pre_cpsr
+    kinds = ['reg', 'flag', 'range']
+    if pre_cpsr[1] & 31 == 16 and post_cpsr[1] & 31 == 16 and pre_cpsr[0] >= 0:
+        kinds = ['priv', 'priv', 'reg', 'flag', 'range']
+    kind = rnd.choice(kinds)
+    if kind == 'priv':
+        which = rnd.choice(['SPsvc', 'LRirq', 'R8fiq', 'spsr', 'sys'])
+        if which == 'spsr':
+            cur = d.get('spsr', {}).get('svc') or c['pre'].get('spsr', {}).get('svc') or base['spsr']['svc']
+            d.setdefault('spsr', {})['svc'] = [cur[0], cur[1] ^ 1]
+        elif which == 'sys':
+            cur = d.get('sys', {}).get('SCR') or c['pre'].get('sys', {}).get('SCR') or base['sys']['SCR']
+            d.setdefault('sys', {})['SCR'] = [cur[0], cur[1] ^ 4]
+        else:
+            cur = d.get('R', {}).get(which) or c['pre'].get('R', {}).get(which) or base['R'][which]
+            d.setdefault('R', {})[which] = [cur[0], cur[1] ^ 16]
+        return c, kind
     if kind == 'reg':
         r = d.setdefault('R', {})
         name = 'R%dusr' % rnd.randrange(8)
